@@ -135,6 +135,13 @@ pub fn entries() -> Vec<Entry> {
             let k = SigningKeyPair::gen_with_defaults();
             [k.public_key.as_slice(), &k.secret_key.as_slice()[..32]].concat()
         }),
+        ("StackByteArray<300>::gen", || SB::<300>::gen().to_vec()),
+        ("[u8;777]::gen", || <[u8; 777] as NewByteArray<777>>::gen().to_vec()),
+        ("Vec<u8>::gen (NewByteArray<1025>)", || <Vec<u8> as NewByteArray<1025>>::gen()),
+        ("PwHash::hash(salt 300)", || {
+            let h: PwHash<Vec<u8>, Vec<u8>> = PwHash::hash(&b"pw".to_vec(), Config::interactive().with_opslimit(1).with_memlimit(8192).with_salt_length(300)).unwrap();
+            h.into_parts().1
+        }),
         ("Kdf::gen(key)", || {
             let k: dryoc::kdf::Kdf<SB<32>, SB<8>> = dryoc::kdf::Kdf::gen();
             k.into_parts().0.to_vec()
@@ -286,7 +293,7 @@ pub fn run() -> i32 {
     let seed = ctx.seed;
     let n = ctx.tier.pick(64usize, 512);
     let es = entries();
-    ctx.rule = format!("bounded exhaustive call histories over the inventory of {} randomised entry points: every entry point alone x {} calls; every ordered pair (a,b) interleaved a,b,a,b,a,b; every triple through the hub copy_randombytes; each history under (i) an owned deterministic RNG (seam H3: distinct, never-zero stream per request) and (ii) the production OsRng; oracle on the returned values only: within a history no value of an entry point repeats, none is all-zero, no byte position is constant across >= 64 calls; non-trivial = history executed; the source tree is scanned for randomness call sites not covered by the inventory (reported, not alarmed)", es.len(), n);
+    ctx.rule = format!("bounded exhaustive call histories over the inventory of {} randomised entry points: every entry point alone x {} calls; every ordered pair (a,b) interleaved a,b,a,b,a,b; every triple through the hub copy_randombytes; a size sweep of randombytes_buf(n) and copy_randombytes(n) for every n up to 1100 (4200 thorough) x 64 calls; each history under (i) an owned deterministic RNG (seam H3: distinct, never-zero stream per request) and (ii) the production OsRng; oracle on the returned values only: within a history no value of an entry point repeats, none is all-zero, no byte position is constant across >= 64 calls; non-trivial = history executed; the source tree is scanned for randomness call sites not covered by the inventory (reported, not alarmed)", es.len(), n);
     ctx.assume("statistical quality of the OS generator is not examined; under OsRng distinctness is asserted only for values >= 16 bytes (false-alarm probability < 2^-100)");
 
     let unmapped = scan_sites();
@@ -355,6 +362,53 @@ pub fn run() -> i32 {
     });
     ctx.note("histories", json!({"singles": es.len(), "ordered_pairs": es.len() * (es.len() - 1), "total": hist.len(), "environments": 2}));
     ctx.absorb("histories", st);
+    // size sweep: the byte-array generators for EVERY request size (a chunked or buffered
+    // generator can leave a tail, a head or a stride unfilled only for some sizes)
+    let top = ctx.tier.pick(1100usize, 4200);
+    let calls = 64usize;
+    let units: Vec<(usize, bool)> = (1..=top).flat_map(|n| [(n, true), (n, false)]).collect();
+    let st = par_units(&units, |&(n, seam), st| {
+        let _ctr = if seam { Some(install_seam(seed ^ n as u64)) } else { None };
+        let r = guarded(AssertUnwindSafe(|| {
+            let mut a: Vec<Vec<u8>> = vec![];
+            let mut b: Vec<Vec<u8>> = vec![];
+            for _ in 0..calls {
+                a.push(dryoc::rng::randombytes_buf(n));
+                let mut buf = vec![0u8; n];
+                dryoc::rng::copy_randombytes(&mut buf);
+                b.push(buf);
+            }
+            (a, b)
+        }));
+        dryoc::rng::verif::set_source(None);
+        let env = if seam { "owned-rng" } else { "os-rng" };
+        match r {
+            Err(p) => {
+                st.eval(&("size", n, seam), true, "panic");
+                st.fail(Fail { check: "C11.rng".into(), signature: "C11/panic/size-sweep".into(), what: format!("randombytes of {} bytes panicked: {}", n, p), case: json!({"size": n, "seam": if seam { Some(seed) } else { None }}) });
+            }
+            Ok((a, b)) => {
+                let mut bad = false;
+                for (name, vals) in [("rng::randombytes_buf", &a), ("rng::copy_randombytes", &b)] {
+                    // for 1-3 byte requests repeats are expected; only constancy is judged
+                    let strict = seam && n >= 8;
+                    let v: Vec<Vec<u8>> = if n >= 8 || !seam { vals.clone() } else { vals.clone() };
+                    let verdict = if n >= 4 { judge(&v, strict) } else { None };
+                    if let Some((class, d)) = verdict {
+                        bad = true;
+                        let sc = if n <= 64 { "len<=64" } else if n % 256 == 0 { "len=k*256" } else { "len>64" };
+                        st.fail(Fail { check: "C11.rng".into(), signature: format!("C11/{}/{}/size-sweep/{}", class, name, sc), what: format!("{}({} bytes) ({}): {}", name, n, env, d), case: json!({"size": n, "seam": if seam { Some(seed) } else { None }}) });
+                    }
+                }
+                st.eval(&("size", n, seam), true, if bad { "stale-randomness" } else if seam { "fresh(owned-rng)" } else { "fresh(os-rng)" });
+            }
+        }
+        if n == 300 && seam {
+            st.sample(json!({"size_sweep": "randombytes_buf(n) and copy_randombytes(n)", "n": n, "calls": calls, "environment": env}));
+        }
+    });
+    ctx.note("size_sweep", json!({"sizes": format!("1..={}", top), "calls_per_size": calls, "functions": ["randombytes_buf", "copy_randombytes"], "environments": 2}));
+    ctx.absorb("size-sweep", st);
     ctx.require_outcome("fresh(owned-rng)");
     ctx.require_outcome("fresh(os-rng)");
     ctx.finish()
